@@ -6,7 +6,8 @@
 set -u
 prop=$1; target=$2; runs=$3; maxlen=$4
 seed=${VERIF_SEED:-20260925}
-out=${VERIF_OUT:-/verif}
+home=${VERIF_HOME:-/verif}
+out=${VERIF_OUT:-$home}
 corpus=$out/target/fuzz_corpus/$target.$$
 rm -rf "$corpus"; mkdir -p "$corpus"
 python3 - "$corpus" "$seed" "$maxlen" <<'PY'
@@ -16,7 +17,7 @@ r = random.Random(seed)
 for i in range(8):
     open(f"{d}/seed{i}", "wb").write(bytes(r.randrange(256) for _ in range(n if i % 2 == 0 else n // 4)))
 PY
-cd /verif/harness/fuzz || exit 2
+cd $home/harness/fuzz || exit 2
 export CARGO_NET_OFFLINE=true
 cargo +nightly fuzz build "$target" >/dev/null 2>"$out/target/fuzz_build.log" || { tail -20 "$out/target/fuzz_build.log"; echo "HARNESS-ERROR: fuzz target $target does not build"; exit 2; }
 log=$out/target/fuzz_$target.log
